@@ -321,10 +321,14 @@ class Ctx:
         os.makedirs(os.path.join(VERIF, "evidence"), exist_ok=True)
         with open(os.path.join(VERIF, "evidence", "%s.json" % self.pid), "w") as f:
             json.dump(ev, f, indent=1)
-        print("%s %s: %d obligations, %d discharged, %d known findings, %d violations, %.1fs" % (
-            self.pid, self.tier, self.obligations, self.discharged, len(seen_known), len(unlisted), wall))
-        for l in out_lines:
-            print(l)
+        try:
+            print("%s %s: %d obligations, %d discharged, %d known findings, %d violations, %.1fs" % (
+                self.pid, self.tier, self.obligations, self.discharged, len(seen_known), len(unlisted), wall))
+            for l in out_lines:
+                print(l)
+            sys.stdout.flush()
+        except BrokenPipeError:
+            pass
         return 1 if unlisted else 0
 
 
